@@ -114,6 +114,15 @@ def run(ctx):
         q_.main = [('asm', 'nop ; first f%d' % j), ('expr', ('inc', 'x++', ('var', 'a'))), ('asm', 'nop ; second f%d' % j), ('strobe', 'HW0'), ('asm', 'nop ; third f%d' % j)]
         q_.prefix = pre
         progs['lit%d' % j] = q_
+    # fixed: asm texts written as adjacent string literals (on one line, over several lines), next to a data literal
+    for j, cuts in enumerate([[3], [5, 9], [1], [4, 5, 6], [11]]):
+        q_ = Prog()
+        q_.globals = [('unsigned char', 'a', None, None, ''), ('unsigned char *const', 'HW0', 0x02, None, '')]
+        q_.prefix = 'const char msg[] = "x" "y";\n' if j % 2 else ''
+        q_.funcs = []
+        q_.main = [('asm', 'nop ; first g%d' % j, None, cuts), ('expr', ('inc', 'x++', ('var', 'a'))), ('asm', 'nop ; second g%d' % j, 1, [c + 2 for c in cuts]),
+                   ('strobe', 'HW0'), ('asm', 'nop ; third g%d' % j, None, cuts[:1])]
+        progs['adj%d' % j] = q_
     # the fixed enumeration of register / hardware-statement shapes (tools/lib/gen_c.py, family E)
     from lib.gen_c import directed_programs
     progs.update({k: p for k, p in directed_programs().items() if k.startswith('E_') or k.startswith('H_asm')})
